@@ -309,8 +309,58 @@ def rule_gf4_gf5(chk: Check):
                     "members, and @memoize " + ("only for (memo) rules" if cls == "XonshParserGenerator" else "for every other rule"))
 
 
+def rule_gf6(chk: Check):
+    """GF6: helper rules (`_tmp_N`) are shared between groups only when the groups generate the same code.  The generators
+    keep a cache from a *description* of the group to the helper; the description must distinguish capture names and actions
+    (they end up in the helper's body).  In pegen, `repr()` of Rhs/Alt/NamedItem shows both, `str()` hides names and actions
+    (SIMPLE_STR) — decided by reading the two methods of each class, not assumed."""
+    gram = parse_py("pegen/grammar.py")
+    simple = any(isinstance(n, ast.Assign) and norm_stmt(n.targets[0]) == "SIMPLE_STR" and isinstance(n.value, ast.Constant)
+                 and n.value.value is True for n in gram.body)
+
+    def shows(cls: str, meth: str, attr: str) -> bool:
+        fn = _find_method(gram, cls, meth)
+        if fn is None:
+            return False
+        for n in ast.walk(fn):
+            if isinstance(n, ast.Attribute) and n.attr == attr and isinstance(n.value, ast.Name) and n.value.id == "self":
+                # shown unconditionally, or under a test that does not mention SIMPLE_STR
+                guarded = any(isinstance(i, ast.If) and "SIMPLE_STR" in norm_stmt(i.test) and any(n is x for x in ast.walk(i))
+                              for i in ast.walk(fn))
+                if not (guarded and simple):
+                    return True
+        return False
+
+    injective = {"repr": shows("Alt", "__repr__", "action") and shows("NamedItem", "__repr__", "name"),
+                 "str": shows("Alt", "__str__", "action") and shows("NamedItem", "__str__", "name")}
+    n_sites = 0
+    for rel, cls in (("tasks/generator.py", "XonshParserGenerator"), ("pegen/parser_generator.py", "ParserGenerator")):
+        mod = parse_py(rel)
+        fn = _find_method(mod, cls, "artifical_rule_from_rhs")
+        if fn is None:
+            continue
+        keys = []
+        for n in ast.walk(fn):
+            if isinstance(n, ast.Call) and isinstance(n.func, ast.Attribute) and n.func.attr in ("get", "setdefault") and \
+                    "cache" in norm_stmt(n.func.value) and n.args:
+                keys.append(n.args[0])
+            if isinstance(n, ast.Subscript) and "cache" in norm_stmt(n.value):
+                keys.append(n.slice)
+        for k in keys:
+            n_sites += 1
+            chk.count("GF6-helper-identity")
+            f = norm_stmt(k.func) if isinstance(k, ast.Call) else None
+            ok = f in injective and injective[f]
+            chk.require(ok, "GF6-helper-identity", f"{rel}:{cls}.artifical_rule_from_rhs:{norm_stmt(k)}", f"{rel}:{k.lineno}",
+                        f"groups are shared by the key `{norm_stmt(k)}`, which does not show capture names and actions: two groups that "
+                        f"differ only there collapse onto one helper and the regenerated parser differs from the shipped one")
+    chk.units["helper_cache_keys"] = n_sites
+
+
 def run(chk: Check):
     rule_gf1(chk)
     rule_gf2(chk)
     rule_gf3(chk)
     rule_gf4_gf5(chk)
+    rule_gf6(chk)
+    chk.floor("GF6-helper-identity", 2)
